@@ -724,6 +724,10 @@ Definition dist_params (x_is_list : bool) (sig : list string) (pk : list (string
                                    else [SProc ("parameters." ++ arg)%string j]
                        end) sig.
 
+(* a list of parameters is wrapped in a CatParameter by the constructor: torch.cat of nothing raises *)
+Definition empty_cat (l : list json) : list step :=
+  match l with [] => [SFail (ECrash "torch.cat of an empty list")] | _ => [] end.
+
 Definition parameter_steps (kv : list (string * json)) : list step :=
   if jhas "full_like" kv then req "full_like" kv ++ (if jhas "rand" kv then [] else need "tensor" kv)
   else if jhas "full" kv then (if jhas "rand" kv then [] else need "tensor" kv)
@@ -750,7 +754,7 @@ Definition transformed_steps (kv : list (string * json)) : list step :=
           end ++
           match jget "x" kv with
           | None => [SFail (EKeyError "x")]
-          | Some (JArr l) => each_from 0 "x" l
+          | Some (JArr l) => each_from 0 "x" l ++ empty_cat l
           | Some j => [SProc "x" j]
           end
       end
@@ -768,7 +772,7 @@ Definition view_steps (kv : list (string * json)) : list step :=
 Definition cat_steps (kv : list (string * json)) : list step :=
   match jget "parameters" kv with
   | None => [SFail (EKeyError "parameters")]
-  | Some (JArr l) => each_from 0 "parameters" l
+  | Some (JArr l) => each_from 0 "parameters" l ++ empty_cat l
   | Some j => [SProc "parameters" j; SFail (ECrash "parameters is not a list")]
   end.
 
@@ -785,7 +789,8 @@ Definition distribution_steps (kv : list (string * json)) : list step :=
               dist_params (match jget "x" kv with Some (JArr _) => true | _ => false end) sig pk
           | Some _ => [SFail (ECrash "parameters is not a dict")]
           | None => []
-          end
+          end ++
+          match jget "x" kv with Some (JArr l) => empty_cat l | _ => [] end
       end
   | Some _ => [SFail (ECrash "distribution is not a string")]
   end.
